@@ -170,7 +170,7 @@ func cmdCheck(args []string) int {
 		*tier = "quick"
 	}
 	if *to == 0 {
-		*to = 10
+		*to = 30
 		if *tier == "thorough" {
 			*to = 60
 		}
